@@ -1,5 +1,6 @@
 import Okane.Drv.Core
 import Okane.Model.ImportCsv
+import Okane.Model.ImportCsvCells
 import Okane.Model.ImportLedger
 /-!
 Driver for C16 (CSV import).  Case line (built by gen/c16.py from its structured configuration, from the
@@ -10,11 +11,22 @@ regex matches computed for the case):
 
   CFG  = `(cfg account asset|liability (operator?) primary CONV o2n|n2o (fields (key POS)...) (rules RULE...))`
   CONV = `(conv extract|compute (commodity?) sec|pri 0|1)`
-  POS  = `(index n)` | `(label s)` | `(template SEG...)` | `(bad)`;  SEG = `(lit s)` | `(named key)` | `(idx zeroBased)`
+  POS  = `(index n)` | `(label s)` | `(tpl <template text>)` (parsed by the MODEL's `Cells.parseTemplate`) |
+         `(template SEG...)` | `(bad)`;  SEG = `(lit s)` | `(named key)` | `(idx zeroBased)`
   RULE = `(rule (or FM...)|(field FM) 0|1 (payee?) (account?) (CONV?))`;  FM = `((field pattern)...)`
   FUND = `(d y m d) neg mant scale commodity`: the funding transaction put before the import
 
 Output: `<id> import=<(ok TXN...)|(err KIND)|(dberr KIND)|(panic SITE)> inexact=<0|1> proc=<-|(ok BAL)|(err IDX KIND ...)|(panic ..)>`
+
+Number cells are decoded by the MODEL (`Cells.cellDecimal`, the model of `str_to_comma_decimal`'s parser); the `decs`
+table of the harness is no longer consulted (`drv c16 table` restores the old behaviour for debugging).
+
+`drv c16 cells` — the cell decoders on their own (same case lines as `hx c16 cells`, see harness/src/c16.rs):
+  `<id> num=<enc cell>` -> `<id> num=(none)|(ok (dec neg mant scale fmt) <enc commodity>)|(err)`
+  `<id> tpl=<enc template> cells=(ok HEADER REC...) dates=((cell DATE)...) fields=((key oneBasedIndex)...) keys=<k1,k2..>`
+      -> `<id> tpl parsed=<(ok SEG...)|(err)> <k1>=<T> <k2>=<T>..`;  T = `(ok <enc rendered>...)|(err KIND)|(dberr KIND)`:
+      the model importer run on the records with `fields[key]` replaced by the template (parsed by the model), the
+      payee / first posting's commodity of every transaction.
 -/
 namespace Okane.Drv.C16
 open Okane Okane.Drv Okane.Import Sexp
@@ -82,6 +94,7 @@ def decPos : Sexp → Option CsvPos
   | .list [.atom "index", n] => n.nat?.map CsvPos.index
   | .list [.atom "label", s] => s.str?.map CsvPos.label
   | .list (.atom "template" :: segs) => (segs.mapM decSeg).map CsvPos.template
+  | .list [.atom "tpl", t] => t.str?.map fun t => Cells.decodePos (.template t)
   | .list [.atom "bad"] => some .badTemplate
   | _ => none
 
@@ -189,14 +202,15 @@ def report (id : String) (account : String) (fund : Option (Date × Dec × Strin
     | .panic s => s!"{id} import=(panic {Sexp.encode s}) inexact={flag} proc=-"
     | .fuelOut => s!"{id} import=(fuelOut) inexact={flag} proc=-"
 
-def step (line : String) : String :=
+def step (useTable : Bool) (line : String) : String :=
   let (id, fs) := splitFields line
   match field fs "cfg", field fs "cells", field fs "dates", field fs "decs", field fs "caps", field fs "fund" with
   | some cfg, some cells, some dates, some decs, some caps, some fund =>
     match (Sexp.parse cfg).bind decCfg, (Sexp.parse cells).bind decCells, (Sexp.parse dates).bind decDateTable,
           (Sexp.parse decs).bind decDecTable, (Sexp.parse caps).bind decCaps, (Sexp.parse fund).bind decFund with
     | some cfg, some (hdr, recs), some dates, some decs, some caps, some fund =>
-      let env : CsvEnv := ⟨tableFn decs, tableFn dates, capsFn caps⟩
+      let env : CsvEnv := if useTable then ⟨tableFn decs, tableFn dates, capsFn caps⟩
+        else Cells.cellEnv (tableFn dates) (capsFn caps)
       let r := csvImportFlagged env cfg hdr recs
       let inexact := match r with
         | .ok ts => ts.any (·.2)
@@ -210,6 +224,80 @@ def step (line : String) : String :=
     | _, _, _, _, _, none => s!"{id} undecodable fund"
   | _, _, _, _, _, _ => s!"{id} bad-case"
 
-def main (_args : List String) : IO Unit := forEachLine step
+/-! ## `drv c16 cells` -/
+
+def encSeg : Seg → Sexp
+  | .lit t => .list [.atom "lit", mkStr t]
+  | .named k => .list [.atom "named", .atom k.name]
+  | .indexed i => .list [.atom "idx", mkNat i]
+
+def numCell (cell : String) : String :=
+  if cell.isEmpty then "(none)"
+  else match Cells.cellAmount cell.toList with
+    | some (d, c) => "(ok " ++ (encPDec d).toStr ++ " " ++ Sexp.encode (String.ofList c) ++ ")"
+    | none => "(err)"
+
+/-- what the harness shows of a transaction for `key` -/
+def shownOf (key : String) (t : Transaction) : String :=
+  if key == "payee" then t.payee
+  else match t.posts.head? with
+    | some p =>
+      match p.amount with
+      | some a => match a.amount with
+        | .amt _ c => c
+        | .paren _ => "?paren"
+      | none => "?none"
+    | none => "?none"
+
+def tplRun (tpl : String) (hdr : List String) (recs : List (List String)) (dates : List (String × Date))
+    (fields : List (FieldKey × Nat)) (key : String) : String :=
+  match FieldKey.ofName? key with
+  | none => "(badkey)"
+  | some k =>
+    let fs : AMap FieldKey CsvPos :=
+      (fields.filter (·.1 != k)).map (fun kv => (kv.1, CsvPos.index kv.2)) ++ [(k, Cells.decodePos (.template tpl))]
+    let cfg : CsvCfg := ⟨"Assets:Bank", .asset, none, "USD", {}, .oldToNew, fs, []⟩
+    let env := Cells.cellEnv (tableFn dates) (fun _ _ => none)
+    match csvImport env cfg hdr recs with
+    | .ok txns =>
+      match ledgerOf cfg.account txns with
+      | .ok ts => "(ok" ++ String.join (ts.map fun t => " " ++ Sexp.encode (shownOf key t)) ++ ")"
+      | .err e => s!"(dberr {e.kind})"
+      | .panic p => s!"(panic {Sexp.encode p})"
+      | .fuelOut => "(fuelOut)"
+    | .err e => s!"(err {e.kind})"
+    | .panic p => s!"(panic {Sexp.encode p})"
+    | .fuelOut => "(fuelOut)"
+
+def cellsStep (line : String) : String :=
+  let (id, fs) := splitFields line
+  match field fs "num", field fs "tpl" with
+  | some cell, _ =>
+    match Sexp.decode cell with
+    | some cell => s!"{id} num={numCell cell}"
+    | none => s!"{id} undecodable num"
+  | none, some tpl =>
+    match Sexp.decode tpl, (field fs "cells").bind Sexp.parse |>.bind decCells,
+          (field fs "dates").bind Sexp.parse |>.bind decDateTable,
+          (field fs "fields").bind Sexp.parse, (field fs "keys").bind Sexp.decode with
+    | some tpl, some (hdr, recs), some dates, some (.list fl), some keys =>
+      let fields := fl.filterMap fun
+        | .list [k, i] => do
+          let k ← k.str?; let k ← FieldKey.ofName? k; let i ← i.nat?
+          pure (k, i)
+        | _ => none
+      let parsed := match Cells.parseTemplate tpl with
+        | some segs => "(ok" ++ String.join (segs.map fun sg => " " ++ (encSeg sg).toStr) ++ ")"
+        | none => "(err)"
+      let parts := (keys.splitOn ",").filter (· ≠ "") |>.map fun k => s!"{k}={tplRun tpl hdr recs dates fields k}"
+      s!"{id} tpl parsed={parsed} " ++ " ".intercalate parts
+    | _, _, _, _, _ => s!"{id} undecodable tpl case"
+  | none, none => s!"{id} bad-case"
+
+def main (args : List String) : IO Unit :=
+  match args with
+  | "cells" :: _ => forEachLine cellsStep
+  | "table" :: _ => forEachLine (step true)
+  | _ => forEachLine (step false)
 
 end Okane.Drv.C16
